@@ -70,12 +70,15 @@ def main():
         "coverage": {
             "evaluations": runs,
             "distinct_nontrivial": distinct,
-            "rule": "one evaluation = one simulated run (seeded boot state + operation/fault history, run seed = mix(VERIF_SEED, property, index)). "
+            "rule": "one evaluation = one simulated run (seeded boot state + operation/fault history, run seed = mix(VERIF_SEED, property, index)); "
+                    "the count includes the slider-lattice pass (one boot per (slider square, relevant-blocker subset) pair, 107 648 per configuration, "
+                    "at most two operations each: enumeration of boot states, not simulation proper). "
                     "distinct_nontrivial = exact number of distinct positions (placement, side, rights, EP file; clocks stripped; 64-bit FNV of the model state) "
                     "at which this property's oracle was evaluated and which are not the run's boot position, counted in the magic/release process only "
                     "(a lower bound for the union over configurations). Oracle: " + ORACLE[prop],
             "samples": samples or ["(no sample recorded)"],
             "simulated_runs": runs,
+            "of_which_slider_lattice_boots": {f'{p["backend"]}/{p["profile"]}': p.get("lattice_runs", 0) for p in parts},
             "simulated_steps": steps,
             "simulated_plies": sum(p["plies"] for p in parts),
             "oracle_evaluations": evals,
